@@ -16,6 +16,7 @@ type mVec struct {
 }
 
 type mIdx struct {
+	Dim      int // dimension established by the first vector of this incarnation of the index (0 = none yet)
 	Cfg      IdxCfg
 	Prec     string
 	Live     map[string]*mVec
@@ -170,6 +171,9 @@ func (m *Model) Expect(op Op) int {
 		d := mi.liveDim()
 		if len(op.Vec) == 0 {
 			if d == 0 {
+				if mi.Dim > 0 {
+					return Either // emptied index: whether the dimension is still known is not stated
+				}
 				return MustErr
 			}
 			return MustOK
@@ -177,12 +181,23 @@ func (m *Model) Expect(op Op) int {
 		if d != 0 && len(op.Vec) != d {
 			return MustErr
 		}
+		if d == 0 && mi.Dim > 0 && len(op.Vec) != mi.Dim {
+			return Either
+		}
 		return MustOK
 	case KBatch, KImport:
 		if mi == nil {
 			return MustErr
 		}
 		d := mi.liveDim()
+		if d == 0 && mi.Dim > 0 {
+			for _, it := range op.Items {
+				if len(it.Vec) != mi.Dim {
+					return Either // emptied index, see KAdd
+				}
+			}
+			d = mi.Dim
+		}
 		if d == 0 {
 			for _, it := range op.Items {
 				if len(it.Vec) > 0 {
